@@ -420,9 +420,10 @@ func (p *Parser) ShortExp(t *token.Token) (ast.ExpNode, *token.Token) {
 		exp, t = p.PrefixExp(t)
 	}
 	if t.Type == token.SgHat {
+		opTok := t
 		var pow ast.ExpNode
 		pow, t = p.ShortExp(p.Scan())
-		exp = ast.NewBinOp(exp, ops.OpPow, t, pow)
+		exp = ast.NewBinOp(exp, ops.OpPow, opTok, pow)
 	}
 	return exp, t
 }
